@@ -56,6 +56,7 @@ type vfSide struct {
 	controlling bool
 	gen         int
 	ufrag, pwd  string
+	oldUfrag, oldPwd string // credentials of the generation ended by Restart
 	started     bool
 	restartedAt int // step of the last Restart (for the C04 Checking edge)
 
